@@ -48,13 +48,34 @@ func FromReader(reader io.Reader) (*Dialogue, error) {
 	}
 	input := antlr.NewInputStream(string(scriptData))
 	var (
-		lexer    = parser.NewYarnSpinnerLexer(input)
-		stream   = antlr.NewCommonTokenStream(lexer, antlr.LexerDefaultTokenChannel)
-		p        = parser.NewYarnSpinnerParser(stream)
-		listener = &parserListener{}
+		lexer         = parser.NewYarnSpinnerLexer(input)
+		stream        = antlr.NewCommonTokenStream(lexer, antlr.LexerDefaultTokenChannel)
+		p             = parser.NewYarnSpinnerParser(stream)
+		listener      = &parserListener{}
+		errorListener = &syntaxErrorListener{}
 	)
+	lexer.RemoveErrorListeners()
+	lexer.AddErrorListener(errorListener)
+	p.RemoveErrorListeners()
+	p.AddErrorListener(errorListener)
 
-	antlr.ParseTreeWalkerDefault.Walk(listener, p.Dialogue())
+	parseTree := p.Dialogue()
+	if len(errorListener.errs) != 0 {
+		return nil, fmt.Errorf("failed to parse dialogue: %w", errors.Join(errorListener.errs...))
+	}
+
+	antlr.ParseTreeWalkerDefault.Walk(listener, parseTree)
 
 	return listener.dialogue, nil
+}
+
+// syntaxErrorListener collects the syntax errors reported by the lexer and the parser.
+type syntaxErrorListener struct {
+	*antlr.DefaultErrorListener
+	errs []error
+}
+
+// SyntaxError is called when the lexer or the parser encounters a syntax error.
+func (l *syntaxErrorListener) SyntaxError(_ antlr.Recognizer, _ interface{}, line, column int, msg string, _ antlr.RecognitionException) {
+	l.errs = append(l.errs, fmt.Errorf("line %d:%d %s", line, column, msg))
 }
